@@ -17,8 +17,10 @@ import N0Verif.Py.Basic
   the property quantifies over are defined concretely at the end of the file (used by the
   driver and validated against CPython by correspondence streams).
 
-  The code modelled is the code **with the fix `C15-close` applied** (`out_filehandler.close()`):
-  every write reaches the file before `save_file` returns.
+  The code modelled is the code **with the fixes `C15-close` and `C15-a` applied**
+  (`out_filehandler.close()`: every write reaches the file before `save_file` returns; on the
+  manual path the codec's signature is taken off every encoded piece and written once, in
+  front of the first piece, when the file has no content yet).
 -/
 namespace N0.Files
 open N0 N0.Py
@@ -114,7 +116,9 @@ inductive Data
 structure Out where
   content : Bytes
   binary : Bool
-  /-- text layer: nothing written yet and the stream is at offset 0 (the encoder will emit its mark) -/
+  /-- the start-of-stream mark is still to be written.  Text layer: nothing written yet and the
+  stream is at offset 0 (the incremental encoder will emit its mark).  Binary handle: `pending`
+  of `save_file` is not empty yet (text payload, `tell() == 0` after `open`). -/
   fresh : Bool
   /-- text layer: the `newline=` argument -/
   nl : Str
@@ -124,10 +128,11 @@ def lf : Str := ['\n']
 def crlf : Str := ['\r', '\n']
 def cr : Str := ['\r']
 
-/-- `out_filehandler.write(x)` -/
+/-- `out_filehandler.write(x)`; on the binary handle together with the
+`line, pending = pending + line, b''` / `output_buffer = pending + output_buffer` in front of it -/
 def Out.write (c : Codec) (o : Out) (d : Data) : PyM Out :=
   match o.binary, d with
-  | true, .b x => .ok { o with content := o.content ++ x }
+  | true, .b x => .ok { o with content := o.content ++ (if o.fresh then c.bom else []) ++ x, fresh := false }
   | true, .s _ => .error .TypeError
   | false, .b _ => .error .TypeError
   | false, .s x =>
@@ -167,11 +172,13 @@ def setB (mode : Str) : PyM Str :=
   | [] => .error .IndexError
   | m0 :: _ => .ok (m0 :: 'b' :: mode.drop 2)
 
-/-- the conversion of one element of a list payload (lines 85–92) -/
+/-- the conversion of one element of a list payload (the `if 'b' in mode` / `else` of the loop).
+On the binary handle `str(line).encode(encoding)[len(signature):]` is the body encoding: a list
+payload is never `bytes`, so `signature` is the codec's mark there. -/
 def convLine (c : Codec) (bin : Bool) : Line → PyM Data
-  | .str s => if bin then (match c.encode s with | some b => .ok (.b b) | none => .error .ValueError) else .ok (.s s)
+  | .str s => if bin then (match c.enc s with | some b => .ok (.b b) | none => .error .ValueError) else .ok (.s s)
   | .bytes b => if bin then .ok (.b b) else (match c.decode b with | some s => .ok (.s s) | none => .error .ValueError)
-  | .other r => if bin then (match c.encode r with | some b => .ok (.b b) | none => .error .ValueError) else .ok (.s r)
+  | .other r => if bin then (match c.enc r with | some b => .ok (.b b) | none => .error .ValueError) else .ok (.s r)
 
 /-- the `for line in output_buffer` loop; the stream reached so far is returned also when a
 line fails -/
@@ -215,25 +222,32 @@ def toBuf (tag : Str) : Payload → Buf
   | .bytes b => .b b
   | .lines xs => .ls xs
 
-/-- lines 73–78 and 83–97: the manual path (binary handle, `'\n'` replaced by hand, every piece
-encoded by its own `str.encode(encoding)` call) -/
+def Buf.isBytes : Buf → Bool
+  | .b _ => true
+  | _ => false
+
+/-- the manual path (binary handle, `'\n'` replaced by hand, every piece encoded by its own
+`str.encode(encoding)` call).  `signature` is `b''` for a bytes payload and the codec's mark
+otherwise; `x.encode(encoding)[len(signature):]` is then the body encoding `c.enc x` (for a bytes
+payload the EOL keeps its mark, and is never written).  `pending` — the mark still to be written
+in front of the first piece — is the signature iff `tell() == 0` right after `open`. -/
 def saveBinary (c : Codec) (fs : FS) (path : Str) (buf1 : Buf) (mode2 eol : Str) : FS × PyM Unit :=
   match setB mode2 with
   | .error e => (fs, .error e)
   | .ok mode3 =>
     match (match buf1 with
-           | .s x => (c.encode (replace lf eol x)).map Buf.b
+           | .s x => (c.enc (replace lf eol x)).map Buf.b
            | other => some other) with
     | none => (fs, .error .ValueError)
     | some buf2 =>
-      match c.encode eol with
+      match (if buf1.isBytes then c.encode eol else c.enc eol) with
       | none => (fs, .error .ValueError)
       | some eolB =>
         match parseMode mode3 >>= openOut fs path with
         | .error e => (fs, .error e)
         | .ok content =>
           finish fs path (writeAll c (mode3.contains 'b') (.b eolB)
-            { content := content, binary := true, fresh := false, nl := [] } buf2)
+            { content := content, binary := true, fresh := !buf1.isBytes && content.isEmpty, nl := [] } buf2)
 
 /-- lines 80–81 and 83–97: the text layer does the newline translation and the encoding -/
 def saveText (c : Codec) (fs : FS) (path : Str) (buf1 : Buf) (mode2 eol : Str) : FS × PyM Unit :=
